@@ -276,6 +276,82 @@ def record_correspondence(tier):
     return len(exp), bad
 
 
+def read_correspondence(tier):
+    """the reader's loop body against the model (XmlRead.v): every record element of the serialised documents is put, with
+    the prefix bindings in scope, under a fresh prov:document and read by the library; the records it makes are compared
+    with the records the model makes from the same element tree (names resolved against the element's own scope)."""
+    import copy as _copy
+    from harness import common, xmltree, progs
+    from harness.sexp import dumps, loads
+    from harness.props import c13
+    import prov.model as M
+    from lxml import etree
+    PROVU = "http://www.w3.org/ns/prov#"
+    programs = progs.value_grid_programs(()) + progs.subtype_programs(()) + progs.scoping_programs(()) + c13.fixed_programs()
+    if tier != "thorough":
+        programs = programs[::2]
+    docs = []
+    for ops in programs:
+        im = I.Impl()
+        for op in ops:
+            im.step(op)
+        docs.extend(im.docs)
+    reqs, exp = [], []
+    seen = set()
+    for d in docs:
+        if not expressible(d) or c01.has_mixed_kinds(d):
+            continue
+        for ft in (False, True):
+            try:
+                text = d.serialize(format="xml", force_types=ft)
+            except Exception:
+                continue
+            root = etree.fromstring(text.encode("utf-8"))
+            elems = []
+            for k in root:
+                if not isinstance(k.tag, str):
+                    continue
+                if etree.QName(k).localname == "bundleContent":
+                    elems.extend(c for c in k if isinstance(c.tag, str))
+                else:
+                    elems.append(k)
+            for el in elems:
+                key = etree.tostring(el) + repr(sorted((p or "", u) for p, u in el.nsmap.items())).encode()
+                if key in seen:
+                    continue
+                seen.add(key)
+                nsmap = dict(el.nsmap)
+                nsmap.setdefault("prov", PROVU)
+                newroot = etree.Element("{%s}document" % PROVU, nsmap=nsmap)
+                newroot.append(_copy.deepcopy(el))
+                payload = etree.tostring(newroot)
+                try:
+                    d2 = M.ProvDocument.deserialize(content=payload, format="xml")
+                    got = ["ok", [I.sx_rec(r) for r in d2.get_records()]]
+                except Exception as e:
+                    got = ["raise", I.exc_class(e)]
+                t = xmltree.tree_of(payload)[6][0]
+                pm = {}
+                for c in newroot[0]:
+                    if isinstance(c.tag, str):
+                        pm.setdefault(etree.QName(c).namespace or "", c.prefix)
+                pmap = [[ns, ["some", p] if p else "none"] for ns, p in sorted(pm.items())]
+                ftab = I.float_table([["str", x] for x in sorted(xmltree.leaf_texts(t, set()))])
+                reqs.append(dumps(["xmlreadrecord", ftab, pmap, t]))
+                exp.append((payload.decode("utf-8", "replace")[:600], got))
+    outs = common.run_model_batch(reqs)
+    bad = []
+    skipped = 0
+    for (payload, got), o in zip(exp, outs):
+        m = loads(o)
+        if m == "out-of-domain":
+            skipped += 1
+            continue
+        if I.canon(m) != I.canon(got):
+            bad.append({"element": payload, "implementation": dumps(I.canon(got))[:700], "model": dumps(I.canon(m))[:700]})
+    return len(exp), skipped, bad
+
+
 def classify(f, ops):
     c = c01.classify(f, ops)
     return {"C01-F1": "C02-F1", "C01-F2": "C02-F2", "C01-F3": None}.get(c)
@@ -304,6 +380,13 @@ def run(tier, seed, log, model_runs=True, enlarged=False):
         for b in bad[:2]:
             res["disagreements"].append({"first_difference": repr(b)[:1500],
                                          "theorem": "correspondence XmlRec.xml_record ~ provxml.serialize_bundle (record loop)"})
+        n, skipped, bad = read_correspondence(tier)
+        res["coverage"]["read_element_cases"] = n
+        res["coverage"]["read_element_out_of_domain"] = skipped
+        log("read elements: %d cases (%d outside the model), %d disagreements" % (n, skipped, len(bad)))
+        for b in bad[:2]:
+            res["disagreements"].append({"first_difference": repr(b)[:1500],
+                                         "theorem": "correspondence XmlRead.xml_read_record ~ provxml.deserialize_subtree (loop body)"})
         n, bad = label_correspondence()
         res["coverage"]["element_name_cases"] = n
         log("element names: %d cases, %d disagreements" % (n, len(bad)))
